@@ -6,6 +6,7 @@ integers up to 2^24 (`Sb/Proofs/RoundF32.lean`); the float division of the C cod
 -/
 import Sb.Proofs.RoundF32
 import Sb.Properties.C16
+import Sb.Properties.C16Restart
 
 namespace Sb.C16
 open Sb Sb.Builder Sb.Poly Sb.Proofs
